@@ -60,4 +60,94 @@ def unit_searchsorted(tier):
             "dropped": [], "lib": [], "paths": len(obs)}
 
 
-UNITS = {"cnt": unit_cnt, "searchsorted": unit_searchsorted}
+def unit_complement(tier):
+    """complement_count (instances are added by the boolean-filter contract in pyvc/lib.py when the mask is 'everything except k scattered
+    positions'): a mask over range(n) that is False exactly at k pairwise distinct in-range positions p(0..k-1) has n - k True entries.
+    Mechanised with a ghost sequence M(0) = all of range(n), M(t+1) = Store(M(t), p(t), False):
+      C1 (by induction on t)  M(t)[j]  <=>  0 <= j < n and p(u) != j for all u < t
+      C2 (by induction on t)  cnt(M(t), n) = n - t          (step: cnt.point_update, with M(t)[p(t)] from C1 and distinctness)
+      C3 (by induction on n)  masks that agree on range(n) have the same cnt
+      compose                 X agrees with M(k) on range(n) (C1)  =>  cnt(X, n) = cnt(M(k), n) = n - k"""
+    A, Bm = z3.Array("A", IS, BS), z3.Array("B", IS, BS)
+    n, k, t, u, j = z3.Ints("n k t u j")
+    cnt = z3.RecFunction("cnt", z3.ArraySort(IS, BS), IS, IS)
+    z3.RecAddDefinition(cnt, [A, n], z3.If(n <= 0, 0, cnt(A, n - 1) + z3.If(A[n - 1], 1, 0)))
+    p = z3.Function("p", IS, IS)
+    M = z3.Function("M", IS, z3.ArraySort(IS, BS))
+    inr = lambda x: z3.And(0 <= x, x < n)
+    H0 = z3.ForAll([j], M(0)[j] == inr(j))
+    Hs = z3.ForAll([t], z3.Implies(z3.And(0 <= t, t < k), M(t + 1) == z3.Store(M(t), p(t), False)))
+    Hd = z3.And(z3.ForAll([t, u], z3.Implies(z3.And(0 <= t, t < u, u < k), p(t) != p(u))),
+                z3.ForAll([t], z3.Implies(z3.And(0 <= t, t < k), inr(p(t)))))
+    T = z3.Int("T")
+    notpicked = lambda tt, jj: z3.ForAll([u], z3.Implies(z3.And(0 <= u, u < tt), p(u) != jj))
+    C1 = lambda tt: z3.ForAll([j], M(tt)[j] == z3.And(inr(j), notpicked(tt, j)))
+    C2 = lambda tt: cnt(M(tt), n) == n - tt
+    point_update = lambda Arr, i: z3.Implies(z3.And(0 <= i, i < n, Arr[i]), cnt(z3.Store(Arr, i, False), n) == cnt(Arr, n) - 1)       # lemmas.cnt
+    all_true = lambda Arr: z3.Implies(z3.And(n >= 0, z3.ForAll([j], z3.Implies(inr(j), Arr[j]))), cnt(Arr, n) == n)                     # lemmas.cnt
+    agree = lambda m: z3.ForAll([j], z3.Implies(z3.And(0 <= j, j < m), A[j] == Bm[j]))
+    X = z3.Array("X", IS, BS)
+    obs = []
+    for name, pc, goal in (
+            ("C1.base", [H0], C1(z3.IntVal(0))),
+            ("C1.step", [n >= 0, k >= 0, Hs, 0 <= T, T < k, C1(T)], C1(T + 1)),
+            ("C2.base", [n >= 0, H0, all_true(M(0))], C2(z3.IntVal(0))),
+            ("C2.step", [n >= 0, k >= 0, Hs, Hd, 0 <= T, T < k, C1(T), C2(T), point_update(M(T), p(T))], C2(T + 1)),
+            ("C3.base", [n <= 0, agree(n)], cnt(A, n) == cnt(Bm, n)),
+            ("C3.step", [n > 0, agree(n), z3.Implies(agree(n - 1), cnt(A, n - 1) == cnt(Bm, n - 1))], cnt(A, n) == cnt(Bm, n)),
+            ("compose", [n >= 0, k >= 0, C1(k), C2(k), z3.ForAll([j], z3.Implies(inr(j), X[j] == notpicked(k, j))),
+                         z3.Implies(z3.ForAll([j], z3.Implies(inr(j), X[j] == M(k)[j])), cnt(X, n) == cnt(M(k), n))], cnt(X, n) == n - k)):
+        r = solve_one({"name": "complement_count." + name, "pc": pc, "goal": goal, "meta": {}}, timeout_ms=20000)
+        r["goal_text"] = str(goal)[:200]
+        obs.append(r)
+    return {"unit": "lemmas.complement_count", "target": "boolean-filter contract (pyvc/lib.py): count of the complement of k distinct positions", "kind": "lemma",
+            "obligations": obs, "abstracted": [], "dropped": [], "lib": [], "paths": len(obs)}
+
+
+def unit_scatter(tier):
+    """scatter_count (the 'scatter-of-ones lemma' used by the np.sum / count contracts): a mask over range(n) that is True exactly at k pairwise
+    distinct in-range positions has k True entries. Same scheme as complement_count with N(0) = nothing, N(t+1) = Store(N(t), p(t), True);
+    the step needs cnt.point_set (setting a False entry raises the count by one), proved here by induction on n like cnt.point_update."""
+    A, Bm = z3.Array("A", IS, BS), z3.Array("B", IS, BS)
+    n, k, t, u, j, i = z3.Ints("n k t u j i")
+    cnt = z3.RecFunction("cnt", z3.ArraySort(IS, BS), IS, IS)
+    z3.RecAddDefinition(cnt, [A, n], z3.If(n <= 0, 0, cnt(A, n - 1) + z3.If(A[n - 1], 1, 0)))
+    p = z3.Function("p", IS, IS)
+    Nn = z3.Function("N", IS, z3.ArraySort(IS, BS))
+    inr = lambda x: z3.And(0 <= x, x < n)
+    frame_set = lambda Arr, m: z3.Implies(i >= m, cnt(z3.Store(Arr, i, True), m) == cnt(Arr, m))
+    point_set = lambda Arr, m: z3.Implies(z3.And(0 <= i, i < m, z3.Not(Arr[i])), cnt(z3.Store(Arr, i, True), m) == cnt(Arr, m) + 1)
+    H0 = z3.ForAll([j], z3.Not(Nn(0)[j]))
+    Hs = z3.ForAll([t], z3.Implies(z3.And(0 <= t, t < k), Nn(t + 1) == z3.Store(Nn(t), p(t), True)))
+    Hd = z3.And(z3.ForAll([t, u], z3.Implies(z3.And(0 <= t, t < u, u < k), p(t) != p(u))),
+                z3.ForAll([t], z3.Implies(z3.And(0 <= t, t < k), inr(p(t)))))
+    T = z3.Int("T")
+    picked = lambda tt, jj: z3.Exists([u], z3.And(0 <= u, u < tt, p(u) == jj))
+    C1 = lambda tt: z3.ForAll([j], Nn(tt)[j] == picked(tt, j))
+    C2 = lambda tt: cnt(Nn(tt), n) == tt
+    none_true = lambda Arr: z3.Implies(z3.ForAll([j], z3.Implies(inr(j), z3.Not(Arr[j]))), cnt(Arr, n) == 0)
+    agree = lambda m: z3.ForAll([j], z3.Implies(z3.And(0 <= j, j < m), A[j] == Bm[j]))
+    X = z3.Array("X", IS, BS)
+    ps_inst = z3.Implies(z3.And(inr(p(T)), z3.Not(Nn(T)[p(T)])), cnt(z3.Store(Nn(T), p(T), True), n) == cnt(Nn(T), n) + 1)
+    obs = []
+    for name, pc, goal in (
+            ("frame_set.base", [n <= 0], frame_set(A, n)),
+            ("frame_set.step", [n > 0, frame_set(A, n - 1)], frame_set(A, n)),
+            ("point_set.base", [n <= 0], point_set(A, n)),
+            ("point_set.step", [n > 0, point_set(A, n - 1), frame_set(A, n - 1)], point_set(A, n)),
+            ("none_true.base", [n <= 0], none_true(A)),
+            ("none_true.step", [n > 0, z3.Implies(z3.ForAll([j], z3.Implies(z3.And(0 <= j, j < n - 1), z3.Not(A[j]))), cnt(A, n - 1) == 0)], none_true(A)),
+            ("C1.base", [H0], C1(z3.IntVal(0))),
+            ("C1.step", [n >= 0, k >= 0, Hs, 0 <= T, T < k, C1(T)], C1(T + 1)),
+            ("C2.base", [n >= 0, H0, none_true(Nn(0))], C2(z3.IntVal(0))),
+            ("C2.step", [n >= 0, k >= 0, Hs, Hd, 0 <= T, T < k, C1(T), C2(T), ps_inst], C2(T + 1)),
+            ("compose", [n >= 0, k >= 0, C1(k), C2(k), z3.ForAll([j], z3.Implies(inr(j), X[j] == picked(k, j))),
+                         z3.Implies(z3.ForAll([j], z3.Implies(inr(j), X[j] == Nn(k)[j])), cnt(X, n) == cnt(Nn(k), n))], cnt(X, n) == k)):
+        r = solve_one({"name": "scatter_count." + name, "pc": pc, "goal": goal, "meta": {}}, timeout_ms=20000)
+        r["goal_text"] = str(goal)[:200]
+        obs.append(r)
+    return {"unit": "lemmas.scatter_count", "target": "np.sum / count contracts (pyvc/lib.py): k distinct positions set in an all-False mask give count k", "kind": "lemma",
+            "obligations": obs, "abstracted": [], "dropped": [], "lib": [], "paths": len(obs)}
+
+
+UNITS = {"cnt": unit_cnt, "searchsorted": unit_searchsorted, "complement_count": unit_complement, "scatter_count": unit_scatter}
